@@ -22,7 +22,7 @@ fn adsr_op(fs: f32) -> BoxedStrategy<AdsrOp> {
         2 => adsr_time(fs).prop_map(AdsrOp::SetDecay),
         2 => adsr_time(fs).prop_map(AdsrOp::SetRelease),
         3 => sustain_level().prop_map(AdsrOp::SetSustain),
-        2 => (0.2f32..1.5).prop_map(AdsrOp::CutShort),
+        2 => prop_oneof![3 => 0.2f32..1.5, 1 => Just(1.0f32), 1 => Just(2.0f32)].prop_map(AdsrOp::CutShort),
         1 => (proptest::sample::select(vec![255u16, 256, 257, 300, 512, 40, 3]), 0u8..6).prop_map(|(n, ticks)| AdsrOp::GateBurst { n, ticks }),
         2 => (0u8..3, 0u8..3, prop_oneof![Just(0.0f32), -1e-3f32..1e-3, -1e-5f32..1e-5, Just(1e-6f32), Just(-1e-6f32), Just(2e-4f32), Just(-2e-4f32)]).prop_map(|(dst, src, rel)| AdsrOp::NudgeTime { dst, src, rel }),
     ]
@@ -46,6 +46,7 @@ pub fn adsr_config_case() -> BoxedStrategy<AdsrCase> {
                     3 => (0.05f64..1.0).prop_map(move |k| ((k / fs as f64) as f32).max(0.001)),
                     2 => (1.0f64..4.0).prop_map(move |k| ((k / fs as f64) as f32).max(0.001)),
                     1 => Just(0.001f32),
+                    2 => proptest::sample::select(vec![0.5f32, 1.0, 2.0, 4.0]).prop_map(move |k| (k / fs).max(0.001)),
                     2 => log_uniform(0.001, 0.2),
                     1 => wild_finite(),
                 ]
